@@ -20,4 +20,13 @@ theorem table_wf' : ∀ e ∈ table, wf e.schema = true := by
   · exact hip_wf
   · exact tableRest_wf e h
 
+/-- whatever `lookup` returns (a table entry or the generic entry) has a well-formed schema -/
+theorem lookup_wf (c t : Nat) : wf (lookup c t).schema = true := by
+  unfold lookup
+  split
+  · rename_i e he; exact table_wf' e (List.mem_of_find?_eq_some he)
+  · split
+    · rename_i e he; exact table_wf' e (List.mem_of_find?_eq_some he)
+    · simp [genericEntry, wf, sdwf]
+
 end Model
